@@ -312,6 +312,9 @@ func runIdxSim(seed uint64, cfg UnitCfg, dir string) (res unitResult) {
 					return
 				}
 			}
+			if idxTrace && len(opLog) > 0 {
+				fmt.Fprintf(os.Stderr, "op %d %s\n", at, opLog[len(opLog)-1])
+			}
 			if v := checkKey(touched); v != nil {
 				res.viol = v
 				return
@@ -347,6 +350,11 @@ func runIdxSim(seed uint64, cfg UnitCfg, dir string) (res unitResult) {
 	if pi2 != nil && res.viol == nil {
 		res.viol = unitViol("C17", "index-op-panic", kind+" index: "+pi2.String(), at)
 		res.viol.Site = pi2.Site
+	}
+	if res.viol != nil && genKeyExtremes && kind == "btree" && kt == TInt {
+		// (known finding btree-extreme-int-key: boundary integer keys damage the embedded B-tree; the entry
+		// that goes missing afterwards need not be the boundary key itself)
+		res.viol.Features = map[string]bool{"keys:extreme-int": true}
 	}
 	res.sample = opLog
 	if len(res.sample) > 60 {
